@@ -126,4 +126,28 @@ def run():
     bad = [i['key'].split('|')[-1] for i in c2.instances if not i['ok']]
     need('sync<rename' in bad, 'ORD-4 silent on rename-before-sync control: %s' % bad)
     res['ord4_bad_control'] = bad
+    # the same protocol through an extracted helper: inliner + return-variant threading
+    from mirlib import inline as inl
+    want = inl.reaches(P, lambda n: n in durability.FS_PROTOCOL, crate='control')
+    g = inl.inline(P, P.one('control_store_helper_good'), want)
+    need(g.inlined == ['control_write_durably'], 'inliner did not splice the helper: %s' % g.inlined)
+    c3 = core.Ctx('SELFTEST')
+    c3._program = P
+    c3.rule('ORD-4', 'control')
+    durability.ord4_on_bodies(c3, [g])
+    need(all(i['ok'] for i in c3.instances) and len(c3.instances) >= 5,
+         'ORD-4 reports on the correct helper-split control: %s' % [i['key'] for i in c3.instances if not i['ok']])
+    c4 = core.Ctx('SELFTEST')
+    c4._program = P
+    c4.rule('ORD-4', 'control')
+    durability.ord4_on_bodies(c4, [inl.inline(P, P.one('control_store_helper_bad'), want)])
+    bad2 = [i['key'].split('|')[-1] for i in c4.instances if not i['ok']]
+    need('sync<rename' in bad2, 'ORD-4 silent when the helper result is ignored: %s' % bad2)
+    res['ord4_inlined_controls'] = {'good': len(c3.instances), 'bad': bad2}
+    # float comparisons
+    from rules import widths
+    fc = widths.float_comparisons(P.one('control_float_compare'))
+    bc = widths.float_comparisons(P.one('control_bits_compare'))
+    need(len(fc) == 1 and not bc, 'float-comparison detector: %s / %s' % (fc, bc))
+    res['float_compare_control'] = len(fc)
     return res
